@@ -17,9 +17,15 @@ MANIFEST = {
     "technique": "Coq proof of finite source-derived obligations over every shipped template + uniqueness algebra + collection unambiguity; extracted predicate evaluated on every real output",
     "text": "PARTIAL. Theorems C07_template_tags_known, C07_template_user_tags_paired_unique (finite obligations over Gen/Templates.v and Gen/Vocab.v, "
             "regenerated from /repo on every run), C07_instances_unique / C07_pair_instances_injective (expansion over duplicate-free element lists keeps "
-            "names distinct), C07_collect_unambiguous (well-formed tags => the next regeneration collects exactly each tag's block). The universally "
-            "quantified statement over all models is NOT a theorem (the complete template engine is not a Coq function); it is tied by evaluating the "
-            "extracted predicate [represervable] and an independent regex oracle on every file of real generations over random, adversarial and mutated models.",
+            "names distinct), C07_collect_unambiguous (well-formed tags => the next regeneration collects exactly each tag's block). "
+            "C07_tags_consumed_shipped: for the three shipped files whose first-filtered lines parse into the template grammar of Model/EngineSM.v "
+            "(Test.TEMPLATEStateMachine.cpp, TEMPLATEReceiver.h, TEMPLATETransmitter.h; parse/render round trip and in_grammar16 checked by computation on "
+            "the source-derived lines) and EVERY model whose names satisfy wf_elements16 and every user-tag assignment, the generated file equals the reference "
+            "expansion and no line keeps a generator tag; the real bytes of these three files are compared with EngineSM.generate on every random case. "
+            "The universally quantified statement for the remaining shipped files (SIGNATURE / MEMBERS / nested transition tags, UML back ends) and the "
+            "USER-tag half (wf_fresh_file for all models) are NOT theorems; they are tied by evaluating the extracted predicate [represervable] and an "
+            "independent regex oracle on every file of real generations over random, adversarial and mutated models (UML: mutation kinds and directed "
+            "probes of harness/umlsynth.py, duplicate _PARAMS tags judged against the tags the documented scheme yields for the Coq model's operation list).",
     "note": PRES_NOTE + " Name domain of the uniqueness clause: element names are distinct identifiers without '_' that do not equal a fixed tag name "
             "of the template and do not spell On<State>Entry/Exit (known findings K-C07-2/3 reproduce what happens otherwise).",
 }
